@@ -359,7 +359,7 @@ func genC14(tier string) []Scenario {
 	// the state reached is compared with the reference after EVERY step.
 	depth := 4
 	if tier == "thorough" {
-		depth = 5
+		depth = 6
 	}
 	raw := []stOp{
 		{kind: "set", k: "a", v: 1}, {kind: "set", k: "a", v: nil}, {kind: "set", k: "", v: "s"}, {kind: "set", k: "ü", v: 1},
